@@ -31,4 +31,16 @@ func init() {
 		explanation: "Decides the structural clauses behind snapshot immutability of the timed B-tree: copy-on-write discipline (every write to a logical node field is on a freshly allocated node, on the receiver of an in-place mutator whose call sites are all on private nodes, under a mutated()==true guard, or under commitLog in writeTo), lock pairing and lockset of tree and snapshot state, snapshots pinned to flushed roots and registered before return, discard bounded by open snapshots, and the flush ordering shared with C03. It does NOT decide equivalence with the abstract multi-version map.",
 		assumptions: []string{"node objects are only reachable through the fields listed in the COW table"},
 	})
+	register("C05", &propDef{
+		patterns: []string{"./embedded/store", "./embedded/sql"},
+		run:      c05,
+		explanation: "Decides the completeness of the optimistic-validation wiring: every snapshot read of a read-write transaction (found and not-found answers) records into the MVCC read-set; every record kind and every record field is validated at commit and counted by isEmpty(); validation runs inside the store mutex, after waiting for the index up to the precommit frontier read inside the critical section, through the live (sync) snapshot, and precedes performPrecommit unless there is nothing to validate; snapshots include the mandatory-MVCC transaction. It does NOT decide serializability over interleavings nor that the recorded information is sufficient.",
+		assumptions: []string{"default (safe) MVCC mode"},
+	})
+	register("C18", &propDef{
+		patterns: []string{"./pkg/auth", "./pkg/server/...", "./pkg/api/...", "./pkg/database", "./embedded/sql"},
+		run:      c18,
+		explanation: "Decides the table-and-gate part of the access-control matrix completely: the permission tables are constant and mutually consistent; every RPC handler that touches a database passes getDBFromCtx with a constant method name that has a row; a handler that can reach a commit sink (effect class computed from the call graph of pkg/database, not from names) is gated by a row without read-only permission; administrative rows are admin/sysadmin-only; the system-database allow-list contains no write-class method; inside the gate every successful return is dominated by the system-database guard and by IsSysAdmin/HasPermissionForMethod; user changes invalidate sessions after the new record is saved; SQL statements that can write report readOnly()==false. It does NOT decide interceptor configuration, token expiry arithmetic or the pgsql front-end's own authentication.",
+		assumptions: []string{"gRPC interceptors are installed as configured in pkg/server (not analysed)"},
+	})
 }
